@@ -166,7 +166,7 @@ func (e histEngine) Gen(r *R, tier string) any {
 	p := &HistPlan{Perm: r.Uint64()}
 	n := r.Range(1, 3)
 	for i := 0; i < n; i++ {
-		p.Cfgs = append(p.Cfgs, genCfg(r))
+		p.Cfgs = append(p.Cfgs, genCfgX(r))
 	}
 	// start
 	if r.P(0.5) {
